@@ -22,7 +22,7 @@ from fractions import Fraction
 from harness import core
 
 MANIFEST_ENTRY = {
-    "text": "Lean theorems C14_partial (closed form of both summary tables after the whole batch loop: a permutation of one row per (program, simulation) computed from that pair's own files, for every simulation count, both retention settings and every enumeration order of every directory scan), once_each, perm_invariant, own_files_only, estimate_floor, estJoin_perm_invariant, cost_ratios, cost_once_each, batch_sizes_sum, batch_sizes_le_five, batch_sims_eq_range prove the property for all program names that are not reserved; C14_counterexample shows the unrestricted statement false for a program whose name starts with the kept marker, C14_yearly_counterexample shows the yearly share of an open-ended record that starts after the latest recorded end date negative. The model is tied to the real SimulationManager batch loop, SummaryOutputManager, summary_outputs, summary_output_helpers, summary_output_mapper and batch_simulations by running them over generated program folders with os.scandir permuted independently per call (simulation counts 1..12 and beyond, both retention settings) and comparing both summary files and the folder contents after every batch and the cost summary at the end with the compiled model driven by the recorded listings; a direct oracle recomputes every statistic from the pair's own generated data and re-runs every world under a second enumeration order.",
+    "text": "Lean theorems C14_partial (closed form of both summary tables after the whole batch loop: a permutation of one row per (program, simulation) computed from that pair's own files, for every simulation count, both retention settings and every enumeration order of every directory scan), once_each, perm_invariant, own_files_only, retention_invariant, estimate_floor, estJoin_perm_invariant, cost_ratios, cost_once_each, batch_sizes_sum, batch_sizes_le_five, batch_sims_eq_range, yearly_shares_complete (the yearly shares of a closed record add up to its value, leap years included) prove the property for all program names that are not reserved; C14_counterexample shows the unrestricted statement false for a program whose name starts with the kept marker, C14_yearly_counterexample shows the yearly share of an open-ended record that starts after the latest recorded end date negative. The model is tied to the real SimulationManager batch loop, SummaryOutputManager, summary_outputs, summary_output_helpers, summary_output_mapper and batch_simulations by running them over generated program folders with os.scandir permuted independently per call (simulation counts 1..12 and beyond, both retention settings) and comparing both summary files and the folder contents after every batch and the cost summary at the end with the compiled model driven by the recorded listings; a direct oracle recomputes every statistic from the pair's own generated data and re-runs every world under a second enumeration order.",
     "design_ref": "DESIGN.md 5.14",
     "note": "trusted: Lean kernel + propext/Classical.choice/Quot.sound; the hand-written model (tied by sampled correspondence, not proof); harness adapter and generators; pandas read_csv/to_csv, merge, groupby and NumPy's percentile as reference semantics (the percentile is an uninterpreted function of the column in the model and is evaluated with NumPy on the column the model names); numbers restricted to a grid on which float arithmetic is exact (CSV float round-trip drift of non-dyadic values is outside the model); row order inside a summary file is not modelled; multiprocessing mode runs the same batch loop and is not exercised separately",
     "technique": "Lean 4 closed-form/permutation proofs over a directory-listing model + differential correspondence with the real aggregation code under permuted os.scandir + direct recomputation oracle",
@@ -241,6 +241,23 @@ def model_lines(world, result):
         econ.append("[%s,%d,%d,%d,%d]" % (p, gw.numerator, gw.denominator, ng.numerator, ng.denominator))
     lines.append("cost %s %s" % (enc_list(nb), enc_list(econ)))
     tags.append(("cost", None))
+    # the function the theorems are about (`runAll`: whole batch loop over the world) on the same world
+    lines.append(lines[0])
+    tags.append(("expect", "ok"))
+    for p in world["programs"]:
+        for sidx in range(world["n"]):
+            f = world["files"]["%s|%d" % (p, sidx)]
+            lines.append("wsim %s %d %s %s %s %s" % (
+                p, sidx, enc_rows("ts", f["ts"]), enc_rows("emis", f["emis"]),
+                "-" if f.get("est") is None else enc_rows("est", f["est"]),
+                "-" if f.get("rep") is None else enc_rows("rep", f["rep"])))
+            tags.append(("expect", "ok"))
+    lines.append("runall %s %d %d %d" % (enc_list(world["programs"]), world["n"], 1 if world["keep_all"] else 0,
+                                          world["n"] % 2))
+    tags.append(("expect", "ok"))
+    for q, tag in (("table ts", "run-ts"), ("table emis", "run-emis"), ("dirs", "run-dirs")):
+        lines.append(q)
+        tags.append((tag, None))
     return lines, tags
 
 
@@ -351,6 +368,26 @@ def correspond(ctx, world, result, replies, tags, inp):
             for p in world["programs"]:
                 if (snap.get(p) or []) != md.get(p, []):
                     ctx.disagree("summary/folder %s after batch %d" % (p, arg), inp, md.get(p), snap.get(p))
+                    ok = False
+        elif tag in ("run-ts", "run-emis"):
+            name = tag[4:]
+            mt = parse_model_table(reply)
+            it = impl_table(result["final"][name], ts_cols if name == "ts" else em_cols)
+            if mt != it:
+                ctx.disagree("summary/runAll %s-table" % name, inp, _short(mt), _short(it))
+                ok = False
+        elif tag == "run-dirs":
+            md = {}
+            for part in reply.split(";"):
+                d, _, names = part.partition("=")
+                md[d] = sorted(n for n in names.split(",") if n)
+            extra = {"kept" * k + sim_name for key, sufs in world.get("extras", {}).items() for suf in sufs
+                     for k in (0, 1)
+                     for sim_name in ["%s_%s_%s" % (key.split("|")[0], key.split("|")[1], suf)]}
+            for p in world["programs"]:
+                got = [x for x in (result["final"]["dirs"].get(p) or []) if x not in extra]
+                if got != md.get(p, []):
+                    ctx.disagree("summary/runAll folder %s" % p, inp, md.get(p), got)
                     ok = False
         elif tag == "cost":
             mt = parse_model_table(reply)
@@ -484,6 +521,28 @@ def reserved_class(p):
     return None
 
 
+def once_each_violation(ctx, name, keys, want, inp):
+    """keys != want.  The recorded reserved-name findings explain exactly one shape: every row of the
+    reserved programs is missing and everything else is as wanted; any other shape is reported under
+    its own signature"""
+    ordinary = [k for k in want if reserved_class(k[0]) is None]
+    if keys == ordinary:
+        for cls in sorted({reserved_class(k[0]) for k in want if reserved_class(k[0])}):
+            ctx.violate("C14:once-each:" + cls,
+                        "%s summary: no row for any simulation of the program with the reserved name (%d rows for %d pairs)"
+                        % (name, len(keys), len(want)), inp)
+        return
+    missing = [k for k in ordinary if k not in keys]
+    if missing:
+        sig = "C14:once-each:%s:missing" % name
+    elif len(set(keys)) != len(keys):
+        sig = "C14:once-each:%s:duplicate" % name
+    else:
+        sig = "C14:once-each:%s:unexpected" % name
+    ctx.violate(sig, "%s summary: keys are not programs x [0,n) once each (missing %s, got %d rows for %d pairs)"
+                % (name, missing[:4], len(keys), len(want)), inp)
+
+
 def oracle(ctx, world, result, inp, second=None):
     from harness.adapters import summary as S
 
@@ -494,18 +553,7 @@ def oracle(ctx, world, result, inp, second=None):
     for name, t in tables.items():
         keys = sorted(k for k, _ in t)
         if keys != want:
-            missing = [k for k in want if k not in keys]
-            cls = sorted({reserved_class(k[0]) or "" for k in missing}) if missing else []
-            if missing and all(cls):
-                sig = "C14:once-each:" + cls[0]
-            elif missing:
-                sig = "C14:once-each:%s:missing" % name
-            elif len(set(keys)) != len(keys):
-                sig = "C14:once-each:%s:duplicate" % name
-            else:
-                sig = "C14:once-each:%s:unexpected" % name
-            ctx.violate(sig, "%s summary: keys are not programs x [0,n) once each (missing %s, got %d rows for %d pairs)"
-                        % (name, missing[:4], len(keys), len(want)), inp)
+            once_each_violation(ctx, name, keys, want, inp)
         for k, row in t:
             if k not in want:
                 continue
@@ -533,10 +581,7 @@ def oracle(ctx, world, result, inp, second=None):
         wantc = sorted((p, str(s)) for p in nb for s in range(n))
         keys = sorted(k for k, _ in ct)
         if keys != wantc:
-            missing = [k for k in wantc if k not in keys]
-            cls = sorted({reserved_class(k[0]) or "" for k in missing}) if missing else []
-            sig = ("C14:once-each:" + cls[0]) if (missing and all(cls)) else "C14:once-each:cost"
-            ctx.violate(sig, "cost summary: keys are not non-baseline programs x [0,n) once each (missing %s)" % missing[:4], inp)
+            once_each_violation(ctx, "cost", keys, wantc, inp)
         kk = S.kg_to_mmbtu()
         for k, row in ct:
             if k not in wantc:
@@ -558,8 +603,10 @@ def oracle(ctx, world, result, inp, second=None):
             if not (isinstance(row[3], Fraction) and float(row[3]) == mit * kk * gas):
                 ctx.violate("C14:cost:value", "value of mitigated methane of %s is not mitigation x KG_TO_MMBTU x gas price" % list(k), inp)
     else:
-        cls = sorted({reserved_class(p) or "" for p in world["programs"]})
-        sig = "C14:cost:crash" if not any(cls) else "C14:once-each:" + [c for c in cls if c][0]
+        if all(reserved_class(p) for p in world["programs"]):
+            sig = "C14:once-each:" + reserved_class(world["programs"][0])
+        else:
+            sig = "C14:cost:crash"
         ctx.violate(sig, "cost summary could not be produced: %s" % result["error"], inp)
     # enumeration-order independence: a second run with another order of every listing
     if second is not None:
@@ -640,10 +687,11 @@ def nontrivial_key(world, result):
 def run(ctx):
     ctx.rule = ("world = programs (2-4 names incl. underscores/digits/'kept' or 'Logs' inside the name), n simulations, "
                 "retention flag, 1-3 years, per (program, simulation) generated timeseries / emissions / estimate / "
-                "correction files on an exact grid, stray non-CSV files; every n in 1..12 (thorough: 0..17) x both "
+                "correction files on an exact grid, stray non-CSV files; every n in 1..12 (thorough: 1..17) x both "
                 "retention settings at least once + random; each world is run twice under independently permuted "
                 "os.scandir; non-trivial = at least one row summarised; distinct by (n, #programs, retention, #batches, "
-                "estimates present, #years, Logs folder present)")
+                "estimates present, #years, Logs folder present); evaluations = worlds + unit-level protocol lines (file "
+                "names against the real regexes, batch_simulations 0..59 + random, calendar days 1999-12-25..2031-01-09)")
     core.lean_stage(ctx, MODULE, FILE, drivers=["drv_summary"])
     drv = core.LeanDriver("drv_summary")
 
@@ -658,11 +706,11 @@ def run(ctx):
 
     # worlds
     specs = []
-    ns = list(range(1, 13)) if ctx.quick else list(range(0, 18))
+    ns = list(range(1, 13)) if ctx.quick else list(range(1, 18))
     for n in ns:
         for keep in ((True, False) if (not ctx.quick or n in (1, 5, 6, 10, 11, 12)) else (ctx.rng.random() < 0.5,)):
             specs.append({"n": n, "keep": keep})
-    for _ in range(ctx.pick(14, 140)):
+    for _ in range(ctx.pick(14, 300)):
         specs.append({})
     worlds = []
     for sp in specs:
@@ -699,6 +747,7 @@ def run(ctx):
         ctx.count("retention:" + ("keep-all" if w["keep_all"] else "clear-later-batches"))
         ctx.count("batches=%d" % len(r1["batches"]))
         ctx.count("gen_calls", sum(1 for ev in r1["events"] if ev[0] == "gen"))
+        ctx.count("hypothesis:GoodProgs:" + ("holds" if not any(reserved_class(p) for p in w["programs"]) else "fails"))
     for (w, seed, kind, r1, r2) in runs[:3]:
         ctx.sample({"programs": w["programs"], "n": w["n"], "keep_all": w["keep_all"], "years": w["years"],
                     "batches": r1["batches"], "rows": len(r1["final"]["emis"] or [])})
